@@ -484,9 +484,9 @@ fn main() {
         if let Some(dir) = &args.corpus {
             cases.extend(read_corpus(dir));
         }
-        let n_hist = args.budget(700, 18000);
-        let n_big = args.budget(40, 1500);
-        let n_graph = args.budget(1500, 50000);
+        let n_hist = args.budget(700, 14000);
+        let n_big = args.budget(40, 1200);
+        let n_graph = args.budget(1500, 40000);
         let mut i = 0u64;
         for _ in 0..n_hist {
             cases.push((format!("hist{i}"), gen_history(&mut Rng::for_case(args.seed, i), false)));
@@ -496,11 +496,11 @@ fn main() {
             cases.push((format!("big{i}"), gen_history(&mut Rng::for_case(args.seed, i), true)));
             i += 1;
         }
-        for _ in 0..(if cfg!(feature = "wrapper") { args.budget(300, 7000) } else { 0 }) {
+        for _ in 0..(if cfg!(feature = "wrapper") { args.budget(300, 6000) } else { 0 }) {
             cases.push((format!("wrap{i}"), gen_wrapper(&mut Rng::for_case(args.seed, i))));
             i += 1;
         }
-        for _ in 0..args.budget(500, 15000) {
+        for _ in 0..args.budget(500, 8000) {
             cases.push((format!("torn{i}"), gen_torn(&mut Rng::for_case(args.seed, i))));
             i += 1;
         }
